@@ -136,6 +136,17 @@ func xzCases(c *hx.Ctx, seed int64) []xzCase {
 			}
 		}
 	}
+	// (4b) many blocks: the record count and the sizes in the index cross the 1/2-byte boundary of
+	// the variable-length integer encoding (128 records; unpadded sizes around 128)
+	for k, bs := range []int64{3, 7, 50, 127, 128} {
+		n := int(bs)*131 + k
+		if bs >= 50 {
+			n = int(bs)*9 + k
+		}
+		data := MakeData([]string{"text", "random", "sparse"}[k%3], n, seed+int64(k)+5000)
+		cases = append(cases, xzCase{G: XZCfg{LC: 3, LP: 0, PB: 2, DictCap: 4096, BufSize: 4096, BlockSize: bs, Check: []int{1, 4, 10, -1, 0}[k], Matcher: k % 2},
+			Hist: []string{"W", "W", "C"}, Fixed: [][]byte{data[:n/3], data[n/3:]}, Tag: "manyblocks"})
+	}
 	// (5) ring-wrap family: small dictionaries and look-ahead buffers, inputs several times
 	// longer than the encoder's ring (dictionary + look-ahead + 1) with matches at every
 	// distance around the wrap point; both match finders; written in odd-sized pieces
